@@ -793,8 +793,19 @@ def rule_G7(prog, fixture=False):
             alternatives, nonlinear, more_incomplete, relevant = _gather(ctx, f, node, base_cons, set(e.atoms()) | {satom},
                                                                          size_cache, skip_size_of=(satom if key[3] == "local" else None))
             incomplete += more_incomplete
-            if key[3] in ("parm", "field") and satom not in e.atoms() and \
-                    not any(satom in c.atoms() for alt in alternatives for c in (alt + base_cons) if c is not size):
+            def _tied():
+                for alt in alternatives:
+                    for c in alt + base_cons:
+                        if c is size:
+                            continue
+                        ats = set(c.atoms())
+                        for a in list(ats):
+                            if a in ctx.divs:
+                                ats |= ctx.divs[a][0].atoms()
+                        if satom in ats:
+                            return True
+                return False
+            if key[3] in ("parm", "field") and satom not in e.atoms() and not _tied():
                 res.add(okey, UNMODELLED, where, what, "no live check ties the size of %s'%s' to anything at this point" % (
                     "the member " if key[3] == "field" else "", nm), func=f.name, extra=extra)
                 continue
